@@ -198,3 +198,57 @@ Theorem C02_hypotheses_satisfiable :
    && (2 <=? length (read_layer_files cfg0 fs0))%nat) = true.
 Proof. exact hyps_satisfiable. Qed.
 Print Assumptions C02_hypotheses_satisfiable.
+
+(* ---- the regenerated constants this property's predicate / model rest on, against literals.
+   Gen/Consts.v is rewritten from the source of /repo on every run, so without this theorem an
+   edit of one of these constants would move model, predicate and code together and nothing
+   would be reported.  Used by: the predicate C02.spec (layerconfig, skeleton file) and the init/add/remove/state parts of Model/Layers.v whose values the manual fixes.
+   "frozen" = no manual text gives the value; it is the value of the reviewed tree. *)
+From LC Require Import Gen.Consts Proofs.C02PinsP.
+Local Open Scope string_scope.
+Theorem C02_constants_pinned :
+  (* doc/layercake_directories.adoc, manual page LAYER DIRECTORY: "layerconfig" *)
+  D_LayerconfigFile = bs "layerconfig" /\
+  (* manual page / doc/layercake_layerconfig.adoc: "default_layerconfig.skel" in the base directory *)
+  D_SkeletonLayerconfigFile = bs "default_layerconfig.skel" /\
+  (* frozen from the reviewed tree (the extension of the documented skeleton name; `add` appends it to a skeleton name without a dot) *)
+  D_SkeletonLayerconfigFileExt = bs ".skel" /\
+  (* doc/layercake_layerconfig.adoc prints these six lines (with {pkgdir} already replaced by the default "packages") *)
+  D_SkeletonLayerconfig = bs "import rbind /dev /dev
+import proc /proc /proc
+import rbind /sys /sys
+import rbind /var/db/repos /var/db/repos
+import rbind /var/cache/distfiles /var/cache/distfiles
+import rbind $$base/{pkgdir} /var/cache/binpkgs" /\
+  (* property C09 text "<name>~removed"; manual page, remove: "append ~removed to the layer name" *)
+  D_RemovedLayerSuffix = bs "~removed" /\
+  (* manual page, status, "not yet populated": bin, etc, lib, opt, root, sbin, usr *)
+  D_MinimalBuildDirs = bs "bin etc lib opt root sbin usr" /\
+  (* manual page EXPORT DIRECTORY / doc/layercake_directories.adoc: "index.html" *)
+  D_ExportIndexHtmlName = bs "index.html" /\
+  (* frozen from the reviewed tree (the stub page `init` writes; the manual only says "dummy index file") *)
+  D_ExportIndexHtml = bs "<!DOCTYPE html>
+<html>
+   <head>
+      <title>binpackager</title>
+   </head>
+   <body>
+      <h1>binpackager</h1>
+      <div>Serves prebuilt Gentoo packages</div>
+   </body>
+</html>
+
+" /\
+  (* frozen from the reviewed tree (what `add` writes to build/root/.bashrc of a base layer; not documented) *)
+  D_BaseLayerRootBashrc = bs "#!/bin/bash
+
+source /etc/profile
+msg=chroot
+if [ -n ""$LAYERCAKE_LAYER"" ]; then
+        msg=""chroot $LAYERCAKE_LAYER""
+fi
+export PS1=""($msg) \[\033]0;\u@\h:\w\007\]\[\033[01;31m\]\h\[\033[01;34m\] \w \$\[\033[00m\] ""
+
+".
+Proof. exact c02_constants_pinned. Qed.
+Print Assumptions C02_constants_pinned.
